@@ -2,6 +2,7 @@
 import itertools
 
 import numpy as np
+from mc.ref.linalg import allclose as _close
 
 from mc.engine import Section, jdump
 from mc.lib import mk_op, op_terms, coef
@@ -40,7 +41,7 @@ def impl_dense(op, n):
 
 
 def nontrivial(M):
-    return bool(np.abs(M).max() > 1e-12 and not np.allclose(M, M[0, 0] * np.eye(M.shape[0])))
+    return bool(np.abs(M).max() > 1e-12 and not _close(M, M[0, 0] * np.eye(M.shape[0])))
 
 
 def sparse_case(case):
@@ -59,7 +60,7 @@ def sparse_case(case):
     exp = ref_matrix(case["op"], nn)
     S = get_sparse_operator(op) if n is None else get_sparse_operator(op, n)
     got = np.asarray(S.toarray(), dtype=complex)
-    ok = got.shape == exp.shape and np.allclose(got, exp, atol=ATOL)
+    ok = got.shape == exp.shape and _close(got, exp, atol=ATOL)
     r = {"ok": bool(ok), "nt": nontrivial(exp), "out": "w%d->n%s" % (w, n)}
     if not ok:
         r.update(msg="sparse matrix differs from the tensor-product definition", expected=str(np.round(exp, 4).tolist())[:500],
@@ -75,14 +76,14 @@ def herm_case(case):
     hc = hermitian_conjugated(op)
     got = impl_dense(hc, n)
     r = {"ok": True, "nt": nontrivial(M), "ops": 2}
-    if not np.allclose(got, M.conj().T, atol=ATOL):
+    if not _close(got, M.conj().T, atol=ATOL):
         return {**r, "ok": False, "msg": "hermitian_conjugated does not denote the conjugate transpose", "expected": str(np.round(M.conj().T, 4).tolist())[:400],
                 "observed": repr(hc), "sig": "herm:conj"}
-    if not np.allclose(impl_dense(op, n), M, atol=ATOL):
+    if not _close(impl_dense(op, n), M, atol=ATOL):
         return {**r, "ok": False, "msg": "hermitian_conjugated modified its argument", "sig": "herm:mutated"}
     simp = op.simplify() if hasattr(op, "simplify") else op
     isH = bool(is_hermitian(simp))
-    refH = bool(np.allclose(M, M.conj().T, atol=1e-9))
+    refH = bool(_close(M, M.conj().T, atol=1e-9))
     r["out"] = "H" if refH else "nonH"
     if isH != refH:
         return {**r, "ok": False, "msg": "is_hermitian disagrees with the matrix for a simplified operator", "expected": refH, "observed": isH, "sig": "herm:test"}
@@ -116,11 +117,11 @@ def expansion_case(case):
     op = get_pauliop_from_matrix(arg)
     back = impl_dense(op, n)
     r = {"ok": True, "nt": nontrivial(M), "ops": 2, "out": "terms%d" % min(len(op.terms), 9)}
-    if not np.allclose(back, M, atol=ATOL):
+    if not _close(back, M, atol=ATOL):
         return {**r, "ok": False, "msg": "Pauli expansion does not denote the input matrix", "expected": str(np.round(M, 4).tolist())[:400],
                 "observed": repr(op)[:400], "sig": "expansion:value"}
     S = np.asarray(get_sparse_operator(op, n).toarray(), dtype=complex)
-    if not np.allclose(S, M, atol=ATOL):
+    if not _close(S, M, atol=ATOL):
         return {**r, "ok": False, "msg": "expansion -> sparse does not reproduce the matrix", "expected": str(np.round(M, 4).tolist())[:400],
                 "observed": str(np.round(S, 4).tolist())[:400], "sig": "expansion:roundtrip"}
     return r
@@ -147,14 +148,14 @@ def reverse_case(case):
     for i in range(2 ** nn):
         for j in range(2 ** nn):
             exp[L.bitrev(i, nn), L.bitrev(j, nn)] = M[i, j]
-    r = {"ok": True, "nt": nontrivial(M) and not np.allclose(exp, M), "ops": 2, "out": "w%d->n%s" % (w, n)}
-    if not np.allclose(impl_dense(once, nn), exp, atol=ATOL):
+    r = {"ok": True, "nt": nontrivial(M) and not _close(exp, M), "ops": 2, "out": "w%d->n%s" % (w, n)}
+    if not _close(impl_dense(once, nn), exp, atol=ATOL):
         return {**r, "ok": False, "msg": "reversing once is not the bit-reversal permutation of the matrix", "expected": str(np.round(exp, 4).tolist())[:400],
                 "observed": repr(once), "sig": "reverse:once"}
     twice = reverse_qubit_order(once, nn) if (n is not None or w == nn) else reverse_qubit_order(once, nn)
-    if not np.allclose(impl_dense(twice, nn), M, atol=ATOL):
+    if not _close(impl_dense(twice, nn), M, atol=ATOL):
         return {**r, "ok": False, "msg": "reversing twice is not the identity", "expected": str(np.round(M, 4).tolist())[:400], "observed": repr(twice), "sig": "reverse:twice"}
-    if not np.allclose(impl_dense(op, nn), M, atol=ATOL):
+    if not _close(impl_dense(op, nn), M, atol=ATOL):
         return {**r, "ok": False, "msg": "reverse_qubit_order modified its argument", "sig": "reverse:mutated"}
     return r
 
